@@ -9,6 +9,11 @@ Every second schedule draws its arguments from the MIXED domain of `corr/batteri
 '', (), ... as values, keys, items and defaults; optional arguments omitted vs. an explicit None) and is
 compared by repr.
 
+Optional arguments (`pop(position)`, `sort(reverse)`, `pop(key, default)`, `setdefault(key, default)`,
+`get(default)`) are issued in all three forms -- omitted, positional, BY KEYWORD (the keyword travels through the
+log) -- and every keyword call is followed, from the same node, by the same method without the argument, by a
+method of the same battery that does not accept that keyword, and by a method of another battery (floored).
+
 Monitor (the property statement): every callback result == the builtin's result for the same call, in
 submission order; at the end all three replicas hold contents equal to the builtin's.
 `ReplSet.pop` is part of the streams (D20 repaired): the callback result must be a member of the mimic
@@ -53,70 +58,107 @@ def make_sim(repo, seed, maxsize):
                 conf={"logCompactionMinEntries": 10 ** 9, "logCompactionMinTime": 10 ** 9})
 
 
-def gen_ops_mixed(rng, n, maxsize):
-    """the same for the mixed domain (raw Python literals, see corr/batteries_mixed.py)"""
-    import copy
-    out = []
-    track = dict((c, bo.make_builtin(c, maxsize)) for c in NAMES)
-    while len(out) < n:
-        cls = rng.choice(NAMES)
-        v = track[cls].v
-        size = v.qsize() if cls in ("queue", "pq") else 0 if cls == "counter" else len(v)
-        op = bm.gen_op(rng, cls, size)
-        if op[0] not in bo.REPLICATED[cls] or (cls == "list" and op[0] == "__setitem__"):
-            continue
-        if cls == "set" and op[0] == "pop":
-            if not v:
-                continue
-            v.remove(min(v, key=lambda x: (type(x).__name__, repr(x))))
-            out.append((cls, op))
-            continue
-        if cls == "pq" and op[0] == "put" and type(bm.unlit(op[1])) not in (int, bool):
-            continue                                  # unorderable items raise inside heappush
-        if cls not in ("queue", "pq"):
-            probe = copy.deepcopy(track[cls])
-            if isinstance(bm.call_builtin(cls, probe, op), bm.Err):
-                continue
-        bm.call_builtin(cls, track[cls], op)
-        out.append((cls, op))
-    return out
+# optional parameters of replicated battery methods: (class, method) -> (number of required positionals, name)
+KWPARAM = {("list", "pop"): (0, "position"), ("list", "sort"): (0, "reverse"), ("dict", "pop"): (1, "default"),
+           ("dict", "setdefault"): (1, "default"), ("queue", "get"): (0, "default"), ("pq", "get"): (0, "default")}
+# methods of the same battery that do NOT accept that keyword (they must neither see it nor fail because of it)
+LACKING = {"list": [["append", 3], ["extend", [1]]], "dict": [["set", 2, 2], ["clear"]],
+           "queue": [["put", 4]], "pq": [["put", 4]]}
+OTHER = [("counter", ["inc"]), ("set", ["add", 5]), ("list", ["append", 8]), ("queue", ["put", 6]), ("dict", ["set", 1, 1])]
 
 
-def gen_ops(rng, n, maxsize):
-    """mutating calls only (reads are local; contents are compared at the end); no call that raises (what a
-    raising replicated method does to the cluster is property C12's subject).  The tracker only steers
-    the generation (sizes, non-raising calls); for ReplSet.pop it removes the element with the smallest
-    (type name, repr) -- should the implementation choose otherwise, `evaluate` follows the implementation."""
-    out = []
-    track = dict((c, bo.make_builtin(c, maxsize)) for c in NAMES)
-    while len(out) < n:
-        cls = rng.choice(NAMES)
-        v = track[cls].v
-        size = v.qsize() if cls in ("queue", "pq") else 0 if cls == "counter" else len(v)
-        op = bo.gen_op(rng, cls, size)
-        if op[0] not in bo.REPLICATED[cls]:
-            continue
-        if cls == "set" and op[0] == "pop":
-            if not v:
-                continue
-            v.remove(min(v, key=lambda x: (type(x).__name__, repr(x))))
-            out.append((cls, op))
-            continue
-        if cls == "list" and op[0] == "__setitem__":
-            # @replicated(ver=1): only callable through a cluster after setCodeVersion(1) -- code versions
-            # are property C17's subject (D11 concerns exactly version + snapshot); `set` has the same body
-            continue
-        if op[0] == "reset" and not (isinstance(op[1], dict) and list(op[1])[0] == {"list": "l", "dict": "d", "set": "s"}[cls]):
-            continue
+class Gen(object):
+    """op stream for one schedule: mutating calls only (reads are local; contents are compared at the end); no
+    call that raises on the mimic (what a raising replicated method does to the cluster is property C12's
+    subject).  The tracker only steers the generation (sizes, non-raising calls); for ReplSet.pop it removes
+    the element with the smallest (type name, repr) -- should the implementation choose otherwise, `evaluate`
+    follows the implementation.  Optional arguments are issued in all three forms: omitted, positional, BY
+    KEYWORD (`kwforms[index] = [parameter name]`: the last argument travels through the log as a keyword); every
+    keyword call is followed by the same method without the argument, by a method of the same battery that lacks
+    the keyword and by a method of another battery of the same node."""
+
+    def __init__(self, rng, maxsize, mixed):
+        self.rng, self.mixed = rng, mixed
+        self.track = dict((c, bo.make_builtin(c, maxsize)) for c in NAMES)
+        self.out, self.kwforms, self.cov = [], {}, {}
+
+    def enc(self, op):
+        return [op[0]] + [bm.lit(a) for a in op[1:]] if self.mixed else op
+
+    def emit(self, cls, op, kw=None):
         import copy
-        probe = copy.deepcopy(track[cls]) if cls not in ("queue", "pq") else None
-        if probe is not None:
-            r = bo.call_builtin(cls, probe, op)
-            if isinstance(r, dict) and "e" in r:
-                continue
-        bo.call_builtin(cls, track[cls], op)
-        out.append((cls, op))
-    return out
+        mixed = self.mixed
+        v = self.track[cls].v
+        name = op[0]
+        if name not in bo.REPLICATED[cls]:
+            return False
+        if cls == "list" and name == "__setitem__":
+            # @replicated(ver=1): only callable through a cluster after setCodeVersion(1) -- code versions
+            # are property C17's subject; `set` has the same body
+            return False
+        if cls == "set" and name == "pop":
+            if not v:
+                return False
+            v.remove(min(v, key=lambda x: (type(x).__name__, repr(x))))
+        else:
+            if mixed:
+                if cls == "pq" and name == "put" and type(bm.unlit(op[1])) not in (int, bool):
+                    return False                      # unorderable items raise inside heappush
+                call, is_err = bm.call_builtin, (lambda r: isinstance(r, bm.Err))
+            else:
+                if name == "reset" and not (isinstance(op[1], dict) and list(op[1])[0] == {"list": "l", "dict": "d", "set": "s"}[cls]):
+                    return False
+                call, is_err = bo.call_builtin, (lambda r: isinstance(r, dict) and "e" in r)
+            if cls not in ("queue", "pq"):
+                if is_err(call(cls, copy.deepcopy(self.track[cls]), op)):
+                    return False
+            call(cls, self.track[cls], op)
+        if kw:
+            self.kwforms[len(self.out)] = kw
+        self.out.append((cls, op))
+        return True
+
+    def size(self, cls):
+        v = self.track[cls].v
+        return v.qsize() if cls in ("queue", "pq") else 0 if cls == "counter" else len(v)
+
+    def count(self, key):
+        self.cov[key] = self.cov.get(key, 0) + 1
+
+    def step(self):
+        rng = self.rng
+        cls = rng.choice(NAMES)
+        op = (bm.gen_op if self.mixed else bo.gen_op)(rng, cls, self.size(cls))
+        par = KWPARAM.get((cls, op[0]))
+        if par is None or len(op) - 1 <= par[0]:
+            if self.emit(cls, op) and par is not None:
+                self.count("form:omitted")
+            return
+        if rng.random() < 0.5:
+            if self.emit(cls, op):
+                self.count("form:positional")
+            return
+        if not self.emit(cls, op, [par[1]]):
+            return
+        self.count("form:keyword")
+        # follow-ups on the same node (the submitter of a burst is one node; see scenario.phase)
+        if self.emit(cls, op[:1 + par[0]] if par[0] == 0 else [op[0], op[1]]):
+            self.count("keyword-then-same-method-without-it")
+        for cand in LACKING.get(cls, []):
+            if self.emit(cls, self.enc(cand)):
+                self.count("keyword-then-method-lacking-the-keyword")
+                break
+        for c2, cand in rng.sample(OTHER, len(OTHER)):
+            if c2 != cls and self.emit(c2, self.enc(cand)):
+                self.count("keyword-then-other-battery")
+                break
+
+
+def gen_ops(rng, n, maxsize, mixed=False):
+    g = Gen(rng, maxsize, mixed)
+    while len(g.out) < n:
+        g.step()
+    return g.out, g.kwforms, g.cov
 
 
 def scenario(repo, seed, rng, n_ops, maxsize, mixed=False):
@@ -128,7 +170,8 @@ def scenario(repo, seed, rng, n_ops, maxsize, mixed=False):
     others = [i for i in sim.voters if i != L]
     F, S = others                    # S = straggler
     sim.run(4)
-    ops = gen_ops_mixed(rng, n_ops, maxsize) if mixed else gen_ops(rng, n_ops, maxsize)
+    ops, kwforms, gcov = gen_ops(rng, n_ops, maxsize, mixed)
+    n_ops = len(ops)
     results = {}                     # submission index -> result / error
 
     def submit(k, node, cls, op):
@@ -139,7 +182,10 @@ def scenario(repo, seed, rng, n_ops, maxsize, mixed=False):
 
         def cb(res, err, k=k):
             results[k] = (res, err)
-        sim._call(node, getattr(sim.objs[node].bat[cls], name), *args, callback=cb)
+        kw = {}
+        for pname in reversed(kwforms.get(k, [])):          # the trailing arguments travel BY KEYWORD
+            kw[pname] = args.pop()
+        sim._call(node, getattr(sim.objs[node].bat[cls], name), *args, callback=cb, **kw)
         if len(sim.errors) > n_err and k not in results:
             # the call raised at the CALLER (before anything was replicated), e.g. a missing argument
             results[k] = ("raised-at-caller", sim.errors[-1][1])
@@ -179,7 +225,8 @@ def scenario(repo, seed, rng, n_ops, maxsize, mixed=False):
     sim.run(8)
     info = {"leader": L, "straggler": S, "first_log_index_after_compaction": first_idx,
             "straggler_last_index_before_rejoin": s_last_before, "straggler_first_index_after_rejoin": s_first_after,
-            "snapshot_installed": s_first_after > s_last_before, "errors": [e[:3] for e in sim.errors[:3]]}
+            "snapshot_installed": s_first_after > s_last_before, "errors": [e[:3] for e in sim.errors[:3]],
+            "argument_forms": gcov, "keyword_calls": sorted(kwforms)[:8]}
     return (sim, ops, results), info
 
 
@@ -288,6 +335,9 @@ def run(ctx):
         cov["schedules"] += 1
         cov["mixed_domain_schedules"] += 1 if mixed else 0
         cov["snapshot_installs"] += 1 if info.get("snapshot_installed") else 0
+        for gk, gv in info.get("argument_forms", {}).items():
+            cov.setdefault("argument_forms", {})
+            cov["argument_forms"][gk] = cov["argument_forms"].get(gk, 0) + gv
         cov["callbacks_compared"] += n_cb
         for cls, op in ops:
             k = ("mixed:%s.%s/%d" % (cls, op[0], len(op) - 1)) if mixed else "%s.%s" % (cls, bo.shape(op))
@@ -303,8 +353,13 @@ def run(ctx):
     res = {"cases": cov["schedules"], "distinct": len(distinct), "coverage": cov, "samples": samples,
            "disagreements": [], "violations": viols[:5], "wall_s": round(time.time() - t0, 2),
            "notes": "private attributes read: _SyncObj__raftLog (via sim.P) and those of corr.batteries_ops"}
+    forms = cov.get("argument_forms", {})
+    need = ["form:omitted", "form:positional", "form:keyword", "keyword-then-same-method-without-it",
+            "keyword-then-method-lacking-the-keyword", "keyword-then-other-battery"]
     if cov["snapshot_installs"] == 0 and not viols:
         res["inconclusive"] = "no schedule made the straggler install a snapshot"
+    elif [f for f in need if not forms.get(f)] and not viols:
+        res["inconclusive"] = "coverage floor missed: " + ", ".join(f for f in need if not forms.get(f))
     return res
 
 
